@@ -225,6 +225,8 @@ func runC03(c *Ctx, r *Rec) {
 	}
 
 	checkReceiverWrites(c, r, "D1-receiver-writes-persist", cat)
+	checkAssociationKeyFrozen(c, r, "D1-association-key-frozen")
+	checkResetCompleteness(c, r, "D1-reset-complete", cat)
 	for _, name := range sortedKeys(ms) {
 		fd := ms[name]
 		if !ast.IsExported(name) {
@@ -641,4 +643,40 @@ func hasFuncLit(n ast.Node) bool {
 		return !found
 	})
 	return found
+}
+
+// checkAssociationKeyFrozen: the key of an association is set when the association is made and
+// never again.  An association is shared by reference with every array view and iterator
+// snapshot taken of its catalog; one whose key is overwritten later (recycled for another entry)
+// makes those snapshots show an entry that was not in the catalog when they were taken.
+func checkAssociationKeyFrozen(c *Ctx, r *Rec, rule string) {
+	an, err := c.impl("collection", "AssociationLike")
+	if err != nil || an == nil {
+		return
+	}
+	info := c.info("collection")
+	ms := c.methodsOf(an)
+	gk := ms["GetKey"]
+	if gk == nil || gk.Body == nil {
+		return
+	}
+	var keyF *types.Var
+	ast.Inspect(gk.Body, func(x ast.Node) bool {
+		if rs, ok := x.(*ast.ReturnStmt); ok && len(rs.Results) == 1 {
+			if f := selectorField(info, rs.Results[0]); f != nil {
+				keyF = f
+			}
+		}
+		return true
+	})
+	construct := "collection.AssociationLike/key"
+	if keyF == nil {
+		r.skip(rule, construct, c.pos(gk.Pos()), "GetKey does not return a field")
+		return
+	}
+	if ws := c.fieldWrites()[keyF.Origin()]; len(ws) > 0 {
+		r.fail(rule, construct, c.pos(ws[0].Pos), fmt.Sprintf("the key of an existing association is %s in %s: array views and iterators that were handed this association earlier now show a key that was not in the catalog when they were taken", ws[0].How, ws[0].In.Name.Name))
+		return
+	}
+	r.ok(rule, construct, c.pos(keyF.Pos()), "the key field is written only while the association is made")
 }
